@@ -190,11 +190,8 @@ func (z *Decimal) Add(x, y *Decimal) *Decimal {
 		// ±0 + ±0
 		z.acc = Exact
 		z.form = zero
-		z.neg = x.neg && y.neg // -0 + -0 == -0
-		if x.neg != y.neg && z.mode == ToNegativeInf {
-			// exact zero sum of zeros with opposite signs
-			z.neg = true
-		}
+		// z may alias x or y: read both signs before setting z.neg
+		z.neg = x.neg && y.neg || x.neg != y.neg && z.mode == ToNegativeInf
 		return z
 	}
 
@@ -1442,11 +1439,8 @@ func (z *Decimal) Sub(x, y *Decimal) *Decimal {
 		// ±0 - ±0
 		z.acc = Exact
 		z.form = zero
-		z.neg = x.neg && !y.neg // -0 - +0 == -0
-		if x.neg == y.neg && z.mode == ToNegativeInf {
-			// exact zero difference of zeros with like signs
-			z.neg = true
-		}
+		// z may alias x or y: read both signs before setting z.neg
+		z.neg = x.neg && !y.neg || x.neg == y.neg && z.mode == ToNegativeInf
 		return z
 	}
 
